@@ -283,6 +283,12 @@ ApiModel buildApiModel(uint64_t seed, int variant, const ApiOpts* optsIn) {
 			nif.AssignExtraData(nif.GetRootNode(), std::move(bsx));
 		}
 	}
+	if (o.texturing && (ver.IsOB() || ver.IsFO3())) {
+		Rng trng(mix(seed, 0x7E87));
+		for (auto& name : M.shapeNames)
+			if (auto sh = nif.FindBlockByName<NiShape>(name)) addTexturingProperty(nif, sh, trng, {});
+		desc << " +texturing";
+	}
 	M.desc = desc.str();
 	{
 		NifFile cp(nif);
@@ -295,6 +301,26 @@ ApiModel buildApiModel(uint64_t seed, int variant, const ApiOpts* optsIn) {
 } // namespace vf
 
 namespace vf {
+void addTexturingProperty(NifFile& nif, NiShape* shape, Rng& rng, const std::vector<std::string>& paths) {
+	auto& hdr = nif.GetHeader();
+	std::string name = shape->name.get();
+	auto tp = std::make_unique<NiTexturingProperty>();
+	tp->textureCount = 10;
+	bool* has[10] = {&tp->hasBaseTex, &tp->hasDarkTex, &tp->hasDetailTex, &tp->hasGlossTex, &tp->hasGlowTex, &tp->hasBumpTex, &tp->hasDecalTex0, &tp->hasDecalTex1, &tp->hasDecalTex2, &tp->hasDecalTex3};
+	TexDesc* td[10] = {&tp->baseTex, &tp->darkTex, &tp->detailTex, &tp->glossTex, &tp->glowTex, &tp->bumpTex, &tp->decalTex0, &tp->decalTex1, &tp->decalTex2, &tp->decalTex3};
+	uint32_t mask = 1 + rng.below(1023);
+	if (rng.coin(3)) mask = 1023;
+	for (int k = 0; k < 10; k++) {
+		if (!(mask & (1u << k))) continue;
+		auto st = std::make_unique<NiSourceTexture>();
+		st->fileName.get() = paths.empty() ? fmt("textures\\slot%d.dds", k) : paths[rng.below((uint32_t)paths.size())];
+		*has[k] = true;
+		td[k]->sourceRef.index = hdr.AddBlock(std::move(st));
+	}
+	uint32_t id = hdr.AddBlock(std::move(tp));
+	if (auto s = nif.FindBlockByName<NiShape>(name)) s->propertyRefs.AddBlockRef(id);
+}
+
 std::string applyRandomEdits(NifFile& nif, Rng& rng, int n) {
 	std::string log;
 	auto& hdr = nif.GetHeader();
